@@ -15,6 +15,7 @@ func init() {
 			"PV-WHOLE: fetchContainers lists all containers and keeps exactly those whose labels Match(params.Labels); getLabels derives container_* labels from the fields they name",
 			"AF: the storage is asked for [Start+lookback, End] (instant) / [Start, End] (range), read off the evaluated paths with loads resolved through preceding stores; LP-OFFLOAD provenance of offloaded matchers",
 			"AF build range bounds (the window a metric query asks the daemon for); FE-CLASS KeyToLabel (a container is selectable under the sanitised name of each label)",
+			"the CLI range rules of C16 (the resolved window is what the containers are asked for)",
 		},
 		NotDecided: []string{"the Docker daemon's own since/until semantics", "regexp engine semantics", "that strconv/time functions meet their contracts"},
 		Rules: func(r *Run) {
